@@ -606,3 +606,30 @@ def X2(inp):
     cl['ticks_again_after_a_failed_tick'] = len(calls) == 2
     cl['sleeps_are_non_negative'] = And([s >= 0 for s in stub.sleeps] or [True])
     return Res(cl, nontrivial=True, obs=lambda: dict(calls=len(calls), sleeps=show(stub.sleeps), exc=show(exc)))
+
+
+@obligation('CB9', props=('C02', 'C18'), quick=[dict(ro=False), dict(ro=True)], stubs=_STUBS2 + ('transport.send answers False for the forwarded command (the link to the known leader is down)',),
+            bounds='a follower or read-only node that still regards b as leader forwards one command with a callback while transport.send() fails; afterwards a new leader announces itself (append_entries of a higher term) and a tick runs')
+def CB9(inp, ro):
+    """at most one callback per submission, also when the forward could not be handed to the transport: whatever the node tells
+    the caller at once, the later leader change does not produce a second answer for the same command."""
+    o, tr, now = _mk_acc(inp, 3, ro)
+    p = so.sym_state(inp, o, now, 2, role=F, term_hi=3, base_hi=1, connected=())
+    a_, c_ = Node('b'), Node('c')
+    put(o, 'raftLeader', a_)
+    put(o, 'raftElectionDeadline', now + 100)
+    real_send = tr.send
+    tr.send = lambda node, message: (real_send(node, message), False)[1] if message.get('type') == 'apply_command' else real_send(node, message)
+    rec = Rec('A')
+    _, exc = guard(o._applyCommand, cmds.regular(inp, o._methodToID['add_v0'], (1,)), rec)
+    if exc is None:
+        _, exc = guard(o._checkCommandsToApply)
+    first = list(rec.calls)
+    if exc is None:
+        _, exc = guard(getattr(o, P + 'onMessageReceived'), c_, {'type': 'append_entries', 'term': p.term + 1, 'commit_index': 0, 'prevLogIdx': p.last, 'prevLogTerm': p.last_term, 'entries': []})
+    if exc is None:
+        _, exc = guard(o._onTick, 0.0)
+    cl = {'no_exception': exc is None}
+    cl['at_most_one_callback'] = len(rec.calls) <= 1
+    cl['only_open_or_not_applied_outcomes'] = all(r is None and e in (FAIL_REASON.MISSING_LEADER, FAIL_REASON.LEADER_CHANGED, FAIL_REASON.NOT_LEADER) for r, e in rec.calls)
+    return Res(cl, nontrivial=True, obs=lambda: dict(ro=ro, first=show(first), calls=show(rec.calls), exc=show(exc)))
